@@ -167,7 +167,7 @@ Adv == /\ "timer" \in Acts /\ ph = "ball" /\ nadv < MaxAdv /\ nadv' = nadv + 1 /
 \* for the same player, or the turn ends: next player / game over
 EndOfBall(a, endNow) ==
     LET me == [Me EXCEPT !.rs = (bound.gm2 # 0)] IN
-    IF me.eb > 0
+    IF me.eb > 0 /\ ~endNow     \* a pending extra ball is not played once end_game was requested (fix 88b41f2)
     THEN /\ Step(a, SetMe(StartBall([me EXCEPT !.eb = @ - 1])), [gm1 |-> cur, gm2 |-> IF me.rs THEN cur ELSE 0],
                  IF me.rs THEN VolFresh ELSE Vol0)
          /\ ending' = endNow /\ UNCHANGED <<ph, np, cur>>
